@@ -79,8 +79,9 @@ def main():
         if keep:
             dst = os.path.join(ROOT, "seeded", name or pid)
             os.makedirs(dst, exist_ok=True)
-            shutil.copy(patch, os.path.join(dst, "patch.diff"))
-            shutil.copy(demo, os.path.join(dst, "demo.py"))
+            if os.path.abspath(dst) != src:
+                shutil.copy(patch, os.path.join(dst, "patch.diff"))
+                shutil.copy(demo, os.path.join(dst, "demo.py"))
             meta = {}
             mp = os.path.join(src, "meta.json")
             if os.path.exists(mp):
